@@ -319,6 +319,7 @@ class Facts:
         self.j = json.load(open(p))
         self.which = which
         self.bodies = {k: Body(k, v) for k, v in self.j["bodies"].items()}
+        self.const_bodies = {k: Body(k, v) for k, v in self.j.get("const_bodies", {}).items()}
         self.instances = self.j["instances"]
         self.by_name = {}
         for i in self.instances:
